@@ -67,7 +67,7 @@ def run(ctx):
     ctx.assumptions += [
         "fixed weights {dynamic, 10 ppm, 100 ppm, 25 %, 33.33 %, 50 %, 99.99 %, 100 %, 150 %}, every vector of 1..4 targets; `route weight` scripts over 2 services x tag sets {none, t1, t1+t2}",
         "effective weights compared with exact rationals to 1e-9 (fabio computes in float64)",
-        "a full round-robin cycle = len(ring) consecutive picks from a seed-chosen cursor position; the share of a target is accepted when it is exact (count/len = weight) or within the slot bounds floor(10^4 w)-1 .. ceil(10^4 w), at least one slot iff w > 0",
+        "round robin is observed through behaviour only: two ring lengths of consecutive lookups from a seed-chosen cursor position; the first ring length and a later window must each hit target i exactly as often as it occupies the ring, and lookup j and j+len(ring) must agree; the ring share of a target is accepted when it is exact (count/len = weight) or within the slot bounds floor(10^4 w)-1 .. ceil(10^4 w), at least one slot iff w > 0",
         "`route weight` with w <= 0 removes the fixed weight (documented: 'w <= 0 means no fixed weighting'); the expected split is that of the configuration after the LAST command of the script (scripts with weight > 0 then weight 0 / negative are cases of their own)",
         "several routes in one table (same path on different hosts, ':port' routes): lookups are interleaved following every schedule of up to 4 (thorough 5) steps over 3 routes, repeated until every route has seen two ring lengths; each route's own consecutive lookups must form exact cycles and be periodic with its ring length",
         "random picker: the statistical share is not checked; with the random source replaced by a counter every ring index is drawn once and the picks must be exactly the ring's members",
@@ -122,7 +122,7 @@ def run(ctx):
     # 4. replay into the real code
     # quick tier: weights and ring shares for every vector, the pick cycles for every
     # vector of <=3 targets added with fixed weights and a seed-selected slice of the others
-    r = run_harness(ctx, cases, "C04 replay", pick_every=ctx.pick(12, 5))
+    r = run_harness(ctx, cases, "C04 replay", pick_every=ctx.pick(20, 5))
     if r is None:
         return
     s = r.summary
